@@ -308,7 +308,8 @@ def parseBoolTok (s : String) : Option Bool :=
 /-- the rest of the generated function around an `Ordering`-valued macro call (`o` its value, `os`
     its value on the swapped arguments, `key` the second key) -/
 def posOrd (pos : String) (o os : Ordering) (key : Option (Int × Int)) : Option String :=
-  if pos = "rev" || pos = "constrev" then some (showOrd o.swap)                -- `.reverse()`
+  if pos = "tail" then some (showOrd o)                                         -- the macro call is the function's tail
+  else if pos = "rev" || pos = "constrev" then some (showOrd o.swap)           -- `.reverse()`
   else if pos = "islt" || pos = "eqlt" then some (showBool (o = .lt))           -- `matches!(.., Less)`, `== Less`
   else if pos = "ifv" then some (if o = .lt then "11" else "10")                -- `if let Less = .. { n += 1 }`
   else if pos = "match" then some (match o with | .lt => "-1" | .eq => "0" | .gt => "1")
@@ -351,6 +352,9 @@ def handleAt (what pos via : String) (args : List String) : Option (String × St
     | [ty, a, b] => some (ty, a, b, none)
     | [ty, a, b, p1, p2] => do some (ty, a, b, some (← parseInt p1, ← parseInt p2))
     | _ => none
+  -- `fortry`: a comparator closure built from `try_equal!` over (high nibble, low nibble) — the order of the bytes,
+  -- i.e. the value of the `forcl` form
+  let via := if via = "fortry" then "forcl" else via
   if (pos = "key2") ≠ key.isSome then none else
   if (argUseOf what via).isNone then none else
   let (m, s) ← handleBase s!"{what}.{via}" [ty, a, b]
